@@ -186,10 +186,10 @@ def model_interp(env, model):
     return I
 
 
-def check_case(run, system, specs, routine, strategy, kind, reverse, user_levels, reuse=False, failing_first=0):
+def check_case(run, system, specs, routine, strategy, kind, reverse, user_levels, reuse=False, failing_first=0, take=None):
     env = Environment()
     case = {"system": system, "goals": specs, "routine": routine, "strategy": strategy, "mixin": kind,
-            "reverse": reverse, "user_levels": user_levels, "reuse": reuse, "failing_first": failing_first}
+            "reverse": reverse, "user_levels": user_levels, "reuse": reuse, "failing_first": failing_first, "take": take}
     models = all_models(system)
     with env:
         opt = make_optimizer(kind)(env, reverse=reverse)
@@ -265,7 +265,14 @@ def check_case(run, system, specs, routine, strategy, kind, reverse, user_levels
                     return opt.boxed_optimize(goals, strategy=strategy)
                 if routine == "lexicographic":
                     return opt.lexicographic_optimize(goals, strategy=strategy)
-                return list(itertools.islice(opt.pareto_optimize(goals), 0, 200))
+                if take is None:
+                    return list(itertools.islice(opt.pareto_optimize(goals), 0, 200))
+                # the caller wants a few points of the front only and ends the enumeration there
+                it = opt.pareto_optimize(goals)
+                try:
+                    return list(itertools.islice(it, 0, take))
+                finally:
+                    it.close()
             res = with_timeout(20, call)
         except Timeout:
             run.discard("timeout:%s/%s" % (routine, strategy))
@@ -347,7 +354,13 @@ def check_case(run, system, specs, routine, strategy, kind, reverse, user_levels
                 cv = [cost_value(c, s) for c, s in zip(costs, specs)]
                 if cv != [objective(s, I)[1] for s in specs]:
                     run.fail({"subcheck": "opt:pareto-cost-mismatch"}, case, "costs %r vs model %r" % (cv, I))
-            if set(got) != front or len(got) != len(set(got)):
+            if take is not None:
+                run.cls("pareto-enumeration-ended-early")
+                if not set(got) <= front or len(got) != len(set(got)) or len(got) != min(take, len(front)):
+                    run.fail({"subcheck": "opt:pareto-front", "mixin": kind, "early": True}, case,
+                             "pareto/%s: the first %d points are %r, the Pareto front is %r\n goals=%r" % (
+                                 kind, take, sorted(got), sorted(front), specs))
+            elif set(got) != front or len(got) != len(set(got)):
                 run.fail({"subcheck": "opt:pareto-front", "mixin": kind}, case,
                          "pareto/%s returned the points %r, the Pareto front is %r (smaller is better, maximisation negated)\n goals=%r" % (
                              kind, sorted(got), sorted(front), specs))
@@ -366,7 +379,7 @@ def check_case(run, system, specs, routine, strategy, kind, reverse, user_levels
                              "after %s the user's pop does not remove the user's level" % routine)
         except BackendError as e:
             run.fail({"subcheck": "opt:stack-not-restored", "routine": routine, "mixin": kind}, case, "illegal pop afterwards: %s" % e)
-    run.case(key=(system, specs, routine, strategy, kind, reverse, user_levels, reuse), nontrivial=nontriv,
+    run.case(key=(system, specs, routine, strategy, kind, reverse, user_levels, reuse, take), nontrivial=nontriv,
              sample={"routine": routine, "strategy": strategy, "mixin": kind, "goals": [s[0] for s in specs],
                      "models": len(models)} if nontriv and len(specs) > 1 else None)
     run.cls("routine:" + routine)
@@ -395,7 +408,8 @@ def random_case(run, rnd, failing_first=0):
             flip = ("max" if specs[0][0] == "min" else "min", specs[0][1], specs[0][2])
             specs = (specs[0], flip) + specs[2:]
         check_case(run, tuple(system), specs, routine, strategy, kind, rnd.random() < 0.5, rnd.choice([0, 0, 1, 2]),
-                   reuse=rnd.random() < 0.3, failing_first=failing_first)
+                   reuse=rnd.random() < 0.3, failing_first=failing_first,
+                   take=rnd.choice([1, 1, 2]) if routine == "pareto" and rnd.random() < 0.35 else None)
 
 
 def shard(shard, seed, n):
@@ -420,6 +434,7 @@ def main():
     for c in ("routine:optimize", "routine:boxed", "routine:lexicographic", "routine:pareto", "strategy:binary",
               "mixin:sua", "mixin:incr", "inside-user-push", "goal:maxsmt", "goal:min-signed", "goal:minmax", "unsat-system"):
         chk.floor(c, 60)
+    chk.floor("pareto-enumeration-ended-early", 30)
     return chk.finish()
 
 
@@ -427,7 +442,7 @@ def replay(rec):
     run = Run(PID, known=[])
     c = rec["case"]
     check_case(run, tuple(c["system"]), tuple(tuple(s) for s in c["goals"]), c["routine"], c["strategy"], c["mixin"],
-               c["reverse"], c["user_levels"], reuse=c.get("reuse", False))
+               c["reverse"], c["user_levels"], reuse=c.get("reuse", False), take=c.get("take"))
     if run.violations:
         print("VIOLATION property=%s replay=(replayed)" % PID)
         print(run.violations[0]["detail"])
